@@ -122,7 +122,7 @@ Definition set_rs (n : node) : list (cid * sub) :=
 Definition rs_of (o : option node) : list (cid * sub) :=
   match o with Some n => set_rs n | None => [] end.
 
-(* topicTrie.matchTopic *)
+(* topicTrie.matchTopic: the '#' child, the '+' child, then matchLiteral (the last summand) *)
 Fixpoint tmatch (ts : list level) (n : node) : list (cid * sub) :=
   match ts with
   | [] => []
@@ -138,6 +138,27 @@ Fixpoint tmatch (ts : list level) (n : node) : list (cid * sub) :=
         end in
       rs_of (child [HASH] n) ++ go (child [PLUS] n) ++ go (child t n)
   end.
+
+(* topicTrie.matchLiteral: only the child named like the first level is followed (no '#' / '+'
+   child at this level); the levels below are matched by matchTopic *)
+Definition tmatch_lit (ts : list level) (n : node) : list (cid * sub) :=
+  match ts with
+  | [] => []
+  | t :: rest =>
+      match child t n with
+      | None => []
+      | Some c =>
+          match rest with
+          | [] => set_rs c ++ rs_of (child [HASH] c)
+          | _ => tmatch rest c
+          end
+      end
+  end.
+
+(* topicTrie.getMatchedTopicFilter: a topic name beginning with '$' is matched literally at its
+   first level [MQTT-4.7.2-1], whatever the trie *)
+Definition tmatch_top (topic : str) (n : node) : list (cid * sub) :=
+  if starts_dollar topic then tmatch_lit (split topic) n else tmatch (split topic) n.
 
 (* topicTrie.preOrderTraverse with fn always returning true *)
 Fixpoint traverse (n : node) : list (cid * sub) :=
@@ -320,7 +341,7 @@ Definition iterate_nonshared (o : iopts) (idx : index) (t : node) : list ient :=
             else some_ents (set_rs x)
         end
     | MatchFilter =>
-        let rs := tmatch (split (io_topic o)) t in
+        let rs := tmatch_top (io_topic o) t in
         if negb (is_empty (io_client o)) then some_ents (of_client (io_client o) rs) else some_ents rs
     | MatchNone => by_client_or_traverse
     end
@@ -367,7 +388,7 @@ Definition iterate_shared (o : iopts) (idx : index) (t : node) : ires :=
           end
         else IOk []
     | MatchFilter =>
-        let rs := tmatch (split (io_topic o)) t in
+        let rs := tmatch_top (io_topic o) t in
         if negb (is_empty (io_client o)) then IOk (some_ents (of_client (io_client o) rs)) else IOk (some_ents rs)
     | MatchNone => by_client_or_traverse
     end
